@@ -25,6 +25,11 @@ ASSUMPTIONS = ['CPython str semantics', 'the model driver is the compiled form o
 LEAN_TARGETS = LEAN_TARGETS + ['TexSoupProofs.Properties.TableSpec']
 # entries of the generated tables that the property's statement names (they stop compiling when a table edit drops them)
 THEOREMS = THEOREMS + ['TexSoup.TableSpec.' + n for n in ['named_math_environments', 'zero_argument_operators', 'sizing_prefixes_and_delimiters']]
+# the same for every strictly parsing representable input, math nodes anywhere in the tree (Properties/AllInputs2.lean)
+LEAN_TARGETS = LEAN_TARGETS + ['TexSoupProofs.Properties.AllInputs2']
+THEOREMS = THEOREMS + ['TexSoup.C12.' + n for n in ['math_node_all', 'math_environment_node_all',
+                                                    'no_free_bracket_group_all', 'command_node_all',
+                                                    'command_found_all']] + ['TexSoup.AllInputs.good_all']
 
 _CACHE = {}
 
